@@ -15,15 +15,32 @@ package compare
 //@ o-operands: thisField:fieldType thatField:fieldType -> int
 //@ o-pure
 //@ o-ensures: [field] r == CmpC(fieldType, thisField, thatField)
+// A []byte component is handed to bytes.Compare (lexicographic, nil == empty: the
+// total order consistent with bytes.Equal, which derived Equal uses there). It is a
+// different total order than the length-first one of CmpTop; this path is kept
+// at the text level (parses, type-checks) and is not under the functional contract.
+//@ o-text-only: basickind(Elem(fieldType)):uint8
 
+// genStatement's map case prints the literal identifiers this/that next to its
+// operand texts; both callers pass exactly "this" and "that" (g-requires,
+// checked at the call sites), so the operands are rendered under those names.
 //@ func (g *gen) genStatement(typ types.Type, this, that string) (err error)
 //@ abstract: stmt returns
 //@ param this: classes=Ident type=typ
 //@ param that: sameclass=this type=typ
+//@ g-requires: !(notlit(this)=this)
+//@ g-requires: !(notlit(that)=that)
+//@ o-literal-operands: this that
 //@ emits: stmts
 //@ o-operands: this:typ that:typ -> int
 //@ o-pure
 //@ o-ensures: [statement] r == CmpTop(typ, this, that)
+//@ o-lemma: order typ
+//@ o-loop: when kind(typ)=Slice 1: invariant forall j int :: 0 <= j && j < $i ==> CmpC(elem(typ), this[j], that[j]) == 0
+//@ o-loop: when kind(typ)=Array 1: invariant forall j int :: 0 <= j && j < $i ==> CmpC(elem(typ), this[j], that[j]) == 0
+//@ o-fork: when kind(typ)=Map flat key(typ)
+//@ o-loop: when kind(typ)=Map 1: invariant sortedKeysOf(key(typ), this, thiskeys) && sortedKeysOf(key(typ), that, thatkeys) && len(this) == len(that)
+//@ o-loop: when kind(typ)=Map 1: invariant forall j int :: 0 <= j && j < $i ==> thiskeys[j] == thatkeys[j] && CmpC(elem(typ), this[thiskeys[j]], that[thatkeys[j]]) == 0
 
 //@ func (g *gen) genFunc(typs []types.Type) (err error)
 //@ param typs: len=2 identical
